@@ -13,6 +13,7 @@ By value, a PoolObj travels as the plain record {"__class__": TAG, "serial": n}:
 The receiving side turns the record into the plain list ["byvalue", n].
 """
 import Pyro5.api as api
+from Pyro5.callcontext import current_context
 from Pyro5.serializers import SerializerBase
 
 TAG = "sim.worlds.registry_objs.PoolObj"
@@ -79,8 +80,36 @@ class PoolObjK(PoolObj):
         return PoolObj.who(self)
 
 
+class PoolObjFrozen(PoolObj):
+    """a pool object that cannot take the daemon's marks (like a frozen dataclass): Daemon.register() of it fails"""
+
+    def __setattr__(self, name, value):
+        if name.startswith("_pyro"):
+            raise AttributeError("cannot assign to field %r" % name)
+        object.__setattr__(self, name, value)
+
+
+@api.expose
+class PoolObjSlots:
+    """a pool object that has room for the daemon's marks but no weak-reference support (__slots__ without __weakref__):
+    it can be registered, but not with weak=True"""
+    __slots__ = ("serial", "_log", "_pyroId", "_pyroDaemon")
+
+    def __init__(self, serial, log):
+        self.serial = serial
+        self._log = log
+
+    def who(self):
+        self._log.append(self.serial)
+        return ["obj", self.serial]
+
+    def __getstate__(self):
+        return {"serial": self.serial}
+
+
 # (the subclasses are not class-exposed: that would publish __len__ / __bool__ as remote methods; who() is inherited exposed)
-SHAPES = {"plain": PoolObj, "len0": PoolObjLen, "bool0": PoolObjBool, "state": PoolObjState, "inst": PoolObjK}
+SHAPES = {"plain": PoolObj, "len0": PoolObjLen, "bool0": PoolObjBool, "state": PoolObjState, "inst": PoolObjK,
+          "frozen": PoolObjFrozen, "noweak": PoolObjSlots}
 
 
 @api.expose
@@ -104,6 +133,9 @@ class Made:
     def who(self):
         self.calls += 1
         return ["made", self.tag]
+
+    def close(self):
+        """called by the connection that tracks this object as a resource, when that connection goes away"""
 
     def __getstate__(self):
         return {"tag": self.tag}
@@ -142,6 +174,12 @@ class Dispenser:
         (it travels as a proxy) or as its uri"""
         obj = Made(tag, self._hooks.pop(tag, None))
         self._made[tag] = obj
+        if mode == "tracked":
+            # a per-client object made on demand: registered weakly (it goes when the application drops it) and
+            # tracked as a resource of the calling client's connection (closed when that client goes away)
+            self._pyroDaemon.register(obj, weak=True)
+            current_context.track_resource(obj)
+            return obj
         uri = self._pyroDaemon.register(obj)
         return obj if mode == "obj" else str(uri)
 
@@ -171,6 +209,7 @@ SerializerBase.register_class_to_dict(PoolObj, _to_dict, serpent_too=False)
 SerializerBase.register_dict_to_class(TAG, _from_dict)
 for _c in SHAPES.values():      # serpent's default class record carries the subclass's own name
     SerializerBase.register_dict_to_class(_c.__module__ + "." + _c.__name__, _from_dict)
+SerializerBase.register_class_to_dict(PoolObjSlots, _to_dict, serpent_too=False)
 assert Made.__module__ + "." + Made.__name__ == MADE_TAG
 SerializerBase.register_class_to_dict(Made, _made_to_dict, serpent_too=False)
 SerializerBase.register_dict_to_class(MADE_TAG, _made_from_dict)
